@@ -255,7 +255,7 @@ pub fn judge(rep: &mut Report, exp: &Expect, seen: &Seen, ctx: &Value) -> bool {
     match &exp.body {
         Some((want, fm)) => {
             let ct = seen.all("content-type");
-            if ct.len() != 1 || !ct[0].eq_ignore_ascii_case(b"application/json") {
+            if ct.len() != 1 || !crate::gen::is_json_media_type(ct[0].as_slice()) {
                 bad(
                     rep,
                     format!("C12:content-type-not-json:{kind}"),
@@ -403,8 +403,19 @@ fn inproc_typed<T: BodyGen>(rep: &mut Report, rng: &mut Rng, ctx: Value) {
     };
     let (kind, status) = KINDS[k];
     let class = format!("{kind}|{}:{vclass}|{}|{}|decl:{}", T::NAME, WRAPS[wrap], hc.coll_class, hc.decl_kind);
-    for c in hc.decl_class.split('+').filter(|c| !c.is_empty()) {
-        rep.count(&format!("declared-value-class:{c}"), 1);
+    for (_, v) in &hc.declared {
+        let c = if !legal_field_value(v.as_bytes()) {
+            "illegal"
+        } else if borderline_field_value(v.as_bytes()) {
+            "borderline"
+        } else if v.bytes().any(|b| b >= 0x80) {
+            "legal-with-obs-text"
+        } else if v.len() > 400 {
+            "legal-long"
+        } else {
+            "legal-ascii"
+        };
+        rep.count(&format!("declared-values:{c}"), 1);
     }
     let mut ctx = ctx;
     ctx["kind"] = json!(kind);
